@@ -3,6 +3,7 @@ import PoaVerif.Props.C15
 import PoaVerif.Model.Spec
 import PoaVerif.Witness.D9b
 import PoaVerif.Lemmas.Quiet
+import PoaVerif.Lemmas.Quiet2.Effect
 /-
   C10 — pending queue integrity and uniqueness of validator identities.
 -/
@@ -198,5 +199,23 @@ theorem c10_identities_partial (g : Genesis) (hw : g.wf = true) (bs : List Block
   rcases List.mem_cons.mp hst with e | e
   · rw [e]; exact G_identities _ _ hg
   · exact G_identities _ _ (h5 st e).2
+
+/-- **C10, identities, along whole histories with removals**: from every well-formed genesis, along every quiet
+    history in the wider sense (`QuietHistory2`), after InitChain and after every block: no two validator records —
+    the records of removed, still unbonding validators included — share an operator address or a consensus key, no two
+    pending applications do, and no pending application shares either with a record.  In particular the identity of a
+    removed validator stays taken until its record matures and is deleted. -/
+theorem c10_identities_removals_partial (g : Genesis) (hw : g.wf = true) (bs : List Block) (hq : QuietHistory2 g bs) :
+    ∃ first steps, run genEnv g bs = some (first, steps, RunEnd.done) ∧
+      ∀ st ∈ first :: steps,
+        (∀ v1 ∈ st.app.vals, ∀ v2 ∈ st.app.vals, (v1.op = v2.op ∨ v1.key = v2.key) → v1 = v2) ∧
+        (st.app.pending.map (·.op)).Nodup ∧ (st.app.pending.map (·.key)).Nodup ∧
+        (∀ p ∈ st.app.pending, ∀ v ∈ st.app.vals, p.op ≠ v.op ∧ p.key ≠ v.key) := by
+  obtain ⟨first, steps, h1, _, _, hg, h5⟩ := quiet_history2 g hw bs hq
+  refine ⟨first, steps, h1, ?_⟩
+  intro st hst
+  rcases List.mem_cons.mp hst with e | e
+  · rw [e]; exact G2_identities _ _ hg
+  · exact G2_identities _ _ (h5 st e).2
 
 end PoaVerif.Props.C10
